@@ -123,7 +123,7 @@ pub fn gen_big_text(r: &mut Rng) -> String {
             text.push_str("é\n");
             text.push_str("tail");
         }
-        _ => {
+        _ if r.chance(1, 2) => {
             // power-of-two boundaries: lines of exactly 127/128/255/256 bytes
             for n in [127usize, 128, 255, 256, 129, 257] {
                 for _ in 0..n - 1 {
@@ -132,7 +132,64 @@ pub fn gen_big_text(r: &mut Rng) -> String {
                 text.push_str(if r.chance(1, 3) { "\r\n" } else { "\n" });
             }
         }
+        _ => {
+            // line-length sweep: consecutive lines of every byte length from `lo` upwards, so
+            // that a threshold measured from the START OF A LINE (a "short line" fast path, a
+            // small-buffer limit, a vector width) is crossed by a line break of every kind,
+            // whatever the constant is (anything below ~580 bytes)
+            let lo = r.below(530) as usize;
+            let n = r.range(8, 48) as usize;
+            let e = r.below(5) as usize; // CRLF twice as likely: its two bytes can be split
+            let non_ascii = r.chance(1, 4);
+            for len in lo..lo + n {
+                let mut rest = len;
+                if non_ascii && rest >= 2 {
+                    text.push('é');
+                    rest -= 2;
+                }
+                for _ in 0..rest {
+                    text.push('w');
+                }
+                text.push_str(["\n", "\r\n", "\r", "\r\n", "\r\n"][e]);
+            }
+            if r.chance(1, 2) {
+                text.push_str("end");
+            }
+        }
     }
     text
 }
 
+
+/// "Medium" texts: a handful of lines of ordinary source-file width (0 … 600 bytes). The dense
+/// generators stop well below 100 bytes per line and the big classes start at hundreds of lines,
+/// so a threshold measured from the start of a line (a "short line" fast path with a fixed
+/// width, a small-buffer limit, a vector width) would otherwise be crossed by a line break only
+/// by luck. Half of the texts use consecutive lengths (L, L+1, L+2, …: whatever the constant is,
+/// its neighbours are there too), half independent ones.
+pub fn gen_medium_text(r: &mut Rng) -> String {
+    let mut text = String::new();
+    if r.chance(1, 8) {
+        text.push('\u{feff}');
+    }
+    let k = r.range(2, 6) as usize;
+    let consecutive = r.chance(1, 2);
+    let lo = r.below(600) as usize;
+    let fixed_eol = r.below(6) as usize;
+    for i in 0..k {
+        let len = if consecutive { lo + i } else { r.below(600) as usize };
+        let mut rest = len;
+        if rest >= 2 && r.chance(1, 6) {
+            text.push('é');
+            rest -= 2;
+        }
+        for _ in 0..rest {
+            text.push('w');
+        }
+        let e = if fixed_eol < 3 { fixed_eol } else { r.below(5) as usize };
+        if i + 1 < k || r.chance(2, 3) {
+            text.push_str(["\n", "\r\n", "\r", "\r\n", "\r\n"][e]);
+        }
+    }
+    text
+}
